@@ -158,7 +158,9 @@ def gen_layout(rng, dim=None, n=None, spacing=5.0, max_radius=None) -> dict:
     pts = {}
     side = max(2, int(math.ceil(n ** (1 / dim))) + 1)
     style = rng.choice(["grid", "jitter", "fine"])
-    while len(pts) < n:
+    attempts = 0
+    while len(pts) < n and attempts < 40 * n + 200:
+        attempts += 1
         idx = tuple(rng.randrange(-side, side + 1) for _ in range(dim))
         if style == "grid":
             p = tuple(spacing * i for i in idx)
@@ -168,8 +170,9 @@ def gen_layout(rng, dim=None, n=None, spacing=5.0, max_radius=None) -> dict:
             p = tuple(spacing * i + rng.randrange(-3, 4) * 1e-7 for i in idx)  # below/at COORD_PRECISION
         if max_radius is not None and math.sqrt(sum(c * c for c in p)) > max_radius:
             continue
-        # traps must stay distinct at the library's coordinate precision (near-ties are C19's business)
-        pts.setdefault(tuple(round(c, 6) + 0.0 for c in p), tuple(round(c, 6) for c in p) if style != "fine" else p)
+        # one trap per lattice site: traps stay distinct at the library's coordinate precision and at least
+        # spacing-1 apart (near-ties are C19's business)
+        pts.setdefault(idx, tuple(round(c, 6) for c in p) if style != "fine" else p)
     coords = [list(p) for p in pts.values()]
     rng.shuffle(coords)
     if rng.random() < 0.2:
@@ -326,8 +329,10 @@ def gen_device(rng) -> dict:
             hi = kw.get("max_layout_traps") or 30
             n = min(max(lo, rng.choice([1, 3, 6, 12])), hi)
             sp = max(float(kw["min_atom_distance"]), 1.0) + 1.0
-            layouts.append(gen_layout(rng, dim=rng.choice([2, dims]) if dims == 3 else 2, n=n, spacing=sp,
-                                      max_radius=float(kw["max_radial_distance"]) - 0.6))
+            lay = gen_layout(rng, dim=rng.choice([2, dims]) if dims == 3 else 2, n=n, spacing=sp,
+                             max_radius=float(kw["max_radial_distance"]) - 0.6)
+            if len(lay["coords"]) >= lo:
+                layouts.append(lay)
     noise = gen_noise(rng) if rng.random() < 0.35 else None
     return dict(virtual=virtual, kw=kw, channels=channels, channel_ids=ids, dmms=dmms, layouts=layouts, noise=noise)
 
